@@ -28,7 +28,7 @@ SEARCH = ["BUG-7", "fix", "#12", "X"]
 
 
 def tag_branch_str(bname):
-    return bname.replace("/", "_").replace(".", "_")
+    return bname.replace("/", "_").replace(".", "_").replace("-", "_")
 
 
 def build_spec(case, name="main", files_extra=None):
@@ -50,9 +50,11 @@ def expected_build_label(case, idx):
         if i != idx:
             continue
         num = case["tag_nums"][n]
-        parts = bname.split("/")[-1].split(".") if bname != "master" else None
-        if parts is not None and len(parts) == 2:
-            nums.append((int(parts[0]), int(parts[1]), num))
+        # documented default tag format: build_<n>_release_<major>_<minor>_success; anything else -> VERSION file
+        import re
+        m = re.match(r"release_(\d+)_(\d+)$", tag_branch_str(bname))
+        if m:
+            nums.append((int(m.group(1)), int(m.group(2)), num))
         else:
             nums.append((7, 1, num))      # from the VERSION file
     if not nums:
@@ -250,7 +252,9 @@ def st_case(draw, max_commits=10):
         commits.append({"parents": parents, "msg": msg, "ts": draw(st.integers(0, 86400 * 29))})
     nb = draw(st.integers(1, 5))
     names = draw(st.lists(st.sampled_from(["release/1.0", "release/2.0", "release/10.0", "release/1.10", "release/1.2",
-                                           "release/1.0.1", "release/9.9", "master"]), min_size=nb, max_size=nb, unique=True))
+                                           "release/1.0.1", "release/9.9", "master", "release/9_10", "release/10_9",
+                                           "release/2-11", "release/11-2", "release/x.1", "release/X1"]),
+                          min_size=nb, max_size=nb, unique=True))
     branches = {b: draw(st.integers(0, n - 1)) for b in names}
     ntags = draw(st.integers(0, min(6, n + 1)))
     tags = []
